@@ -8,7 +8,7 @@ from .common import pp, Inst, setcol, patched
 
 PROPERTY = "C01"
 LEVEL = "model_checking"
-FUNCTIONS = [("pandapower.build_bus", "_calc_pq_elements_and_add_on_ppc"), ("pandapower.build_bus", "_calc_shunts_and_add_on_ppc"),
+FUNCTIONS = [("pandapower.pf.run_dc_pf", "_run_dc_pf"), ("pandapower.build_bus", "_calc_pq_elements_and_add_on_ppc"), ("pandapower.build_bus", "_calc_shunts_and_add_on_ppc"),
              ("pandapower.pypower.makeSbus", "_get_Sload"), ("pandapower.pypower.makeSbus", "makeSbus"),
              ("pandapower.pypower.makeYbus", "makeYbus"), ("pandapower.pypower.makeYbus", "branch_vectors"),
              ("pandapower.results_bus", "_get_p_q_results"), ("pandapower.results_bus", "write_voltage_dependend_load_results"),
@@ -366,6 +366,11 @@ def instances(tier):
     for vdl in (True, False):
         out.append(Inst(f"demand_vdl{int(vdl)}", make_demand(vdl), nvars=48, samples=2, meta=dict(part="I1+I2", voltage_depend_loads=vdl),
                         raises=(ValueError,)))
+    from . import c02          # DC power flow: generator results at the slack bus (shared with C02's DC model instance)
+    out.append(Inst("generation_dc_gen_at_the_slack_bus", c02.make_dc(((0, True), (0, False), (2, False))), nvars=34, samples=2,
+                    meta=dict(part="I4", power_flow="DC", generators="ext_grid + PV gen at the slack bus, PV gen elsewhere")))
+    out.append(Inst("generation_dc_two_ext_grids", c02.make_dc(((0, True), (0, True), (0, False))), nvars=34, samples=2,
+                    meta=dict(part="I4", power_flow="DC", generators="two ext_grids + PV gen at the slack bus")))
     out.append(Inst("demand_dc", make_demand(False, dc=True), nvars=48, samples=2, raises=(ValueError,),
                     meta=dict(part="I1+I2", power_flow="DC", voltage_depend_loads=False)))
     out.append(Inst("demand_step_dependent_shunts", make_demand(False, tabulated=True), nvars=64, samples=2, raises=(ValueError,),
